@@ -281,22 +281,40 @@ def rule_r7(facts, rep, rid="C13-R7"):
         return
     # a wiki link (`[[key]]`, `[[key|text]]`) has its key right behind the opening brackets: a literal under a test of `link_type` may measure the key by its
     # length (a wiki target is literal source text, nothing is unescaped in it); the literal for ordinary links is the one this rule is about
+    def _reads_link_type(e_):
+        # `link.link_type`, or the field taken out by the pattern (`Link { link_type, .. }`)
+        if e_ is None:
+            return False
+        if ("field", "link_type") in cg_.mentions(e_):
+            return True
+        return any(y.get("k") == "path" and y.get("res") == "local" and str(cg_.pos.get(y.get("id"), "")).endswith(".link_type") for y in fb.walk(e_))
+
     def _under_link_type(x_):
         for p_ in cg_.parents(x_):
-            if p_.get("k") == "if" and ("field", "link_type") in cg_.mentions(p_.get("c")):
+            if p_.get("k") == "if" and _reads_link_type(p_.get("c")):
                 return True
             if p_.get("k") == "match":
-                if ("field", "link_type") in cg_.mentions(p_.get("e")):
+                if _reads_link_type(p_.get("e")):
                     return True
                 for arm_ in p_.get("arms", []):
-                    if arm_.get("guard") is not None and any(y is x_ for y in fb.walk(arm_["body"])) and ("field", "link_type") in cg_.mentions(arm_["guard"]):
+                    if arm_.get("guard") is not None and any(y is x_ for y in fb.walk(arm_["body"])) and _reads_link_type(arm_["guard"]):
                         return True
         return False
     plain = [x for x in lit if not _under_link_type(x)]
     for i_, x in enumerate(x_ for x_ in lit if _under_link_type(x_)):
         fl_ = {fl["name"]: fl["e"] for fl in x["fields"]}
         sm = cg_.mentions(fl_.get("start"))
-        if ("field", "inline_range") in sm and ("field", "start") in sm:
+        span_ = ("field", "inline_range") in sm or any(y.get("k") == "path" and y.get("res") == "local" and str(cg_.pos.get(y.get("id"), "")).endswith(".inline_range")
+                                                        for y in fb.walk(through_lets(cg_, fl_.get("start")) or {})) or \
+            any(a[0] == "patpos" and str(a[1]).endswith(".inline_range") for a in cg_.vprov(through_lets(cg_, fl_.get("start")) or {}))
+        if not span_:
+            # the start position is a struct literal whose fields read `inline_range.start.*` (destructured or not)
+            for y in fb.walk(through_lets(cg_, fl_.get("start")) or {}):
+                if y.get("k") == "path" and y.get("res") == "local":
+                    pv_ = cg_.vprov(y)
+                    if ("field", "inline_range") in pv_ or any(a[0] == "patpos" and ".inline_range" in str(a[1]) for a in pv_):
+                        span_ = True
+        if span_ and ("field", "start") in sm:
             rep.ok(rid, "%s|wiki-link-key-behind-the-brackets|%d" % (g.def_, i_), "start = inline_range.start + 2", loc(g, x))
         else:
             rep.violation(rid, "%s|wiki-link-key-behind-the-brackets|%d" % (g.def_, i_), "the key range of a wiki link does not start from the link's source start", loc(g, x))
